@@ -65,6 +65,24 @@ func resolveType(name string, pkg *types.Package) types.Type {
 		}
 		return types.NewSlice(el)
 	}
+	if strings.HasPrefix(name, "map[") {
+		depth := 0
+		for i := 3; i < len(name); i++ {
+			if name[i] == '[' {
+				depth++
+			} else if name[i] == ']' {
+				depth--
+				if depth == 0 {
+					kt, vt := resolveType(name[4:i], pkg), resolveType(name[i+1:], pkg)
+					if kt == nil || vt == nil {
+						return nil
+					}
+					return types.NewMap(kt, vt)
+				}
+			}
+		}
+		return nil
+	}
 	if strings.HasPrefix(name, "*") {
 		el := resolveType(name[1:], pkg)
 		if el == nil {
@@ -771,6 +789,13 @@ func (e *Env) call(x *SExpr) Val {
 		*e.qn++
 		q := quote(fmt.Sprintf("k!q%d", *e.qn))
 		return boolVal(fmt.Sprintf("(forall ((%s %s)) (! (=> (select (select %s %s) %s) (not (= (select (select %s %s) %s) 0))) :pattern ((select (select %s %s) %s))))", q, ks, d, m.S, q, h, m.S, q, h, m.S, q))
+	case "bytescmp":
+		// bytescmp(a, b): the value bytes.Compare(a, b) returns in the current state (same model as the call)
+		a, b := argv(0), argv(1)
+		if a.K != KSlice || b.K != KSlice {
+			return e.fail("bytescmp of non-slices")
+		}
+		return intrBytesCompare(vc, nil, e.st, []Val{a, b}, nil, token.Position{})
 	case "crc32":
 		a := argv(0)
 		if a.K != KSlice {
